@@ -269,7 +269,13 @@ class Planner:
                               "flip": {"draw": rng.below(1 << 30)}})
             d = rng.weighted([(3, "diag.dot"), (1, None)])
             steps.append(_ex(rng, bp, proj="ui", diag=d))
-            steps.append(_ex(rng, bp, proj="ui", diag=d))  # re-run on unchanged inputs, another hash seed
+            second = _ex(rng, bp, proj="ui", diag=d)  # re-run on unchanged inputs, another hash seed
+            if HAS_PAR_HOOK and rng.chance(1, 4):
+                # ... and, one time in four, with a toolchain crate to re-index next to the application
+                # under a seeded thread interleaving (arm `par` on upstream's own programs)
+                steps.append({"op": "evict", "what": "toolchain", "name": "alloc"})
+                second["par_seed"] = rng.below(1 << 30)
+            steps.append(second)
             if a["expect"] == "accept" or rng.chance(1, 3):
                 steps.append(_ex(rng, bp, proj="ui", mode="check", diag=d if rng.chance(2, 3) else None))
         self.add("ui_sweep", rng, steps, rng.weighted([(14, "warm"), (1, "toolchain")]))
@@ -489,7 +495,7 @@ class Planner:
                 self.shrink_deps(100 + i)
             for i in range(3 if q else 30):
                 self.overlap(100 + i)
-            for i in range(6 if q else 80):
+            for i in range(10 if q else 80):
                 self.par(100 + i)
             for i in range(3 if q else 30):
                 self.annot_conflict(100 + i)
